@@ -184,6 +184,12 @@ func c09Compare(c *mc.Ctx, st ion.SymbolTable, ref *refsym.Table, what string) (
 	return sb.String(), ok
 }
 
+type c09Snap struct {
+	st  ion.SymbolTable
+	ref *refsym.Table
+	at  string
+}
+
 func c09Body(c *mc.Ctx) {
 	maxImports, maxLocals, maxAdds := 2, 3, 3
 	if c.Tier == "thorough" {
@@ -296,6 +302,7 @@ func c09Body(c *mc.Ctx) {
 			return
 		}
 		var locals []string
+		var snaps []c09Snap
 		ref := c09RefTable(imps, nil, locals)
 		alpha := []string{"a", "b", "name", "x", "q"}
 		for n := 0; n < maxAdds; n++ {
@@ -324,6 +331,12 @@ func c09Body(c *mc.Ctx) {
 			if _, ok := c09Compare(c, b, ref, fmt.Sprintf("builder after Add%q", adds)); !ok {
 				return
 			}
+			// a table built earlier is a snapshot: later Adds on the builder must not show through
+			for _, sn := range snaps {
+				if _, ok := c09Compare(c, sn.st, sn.ref, fmt.Sprintf("%s, re-asked after Add%q", sn.at, adds)); !ok {
+					return
+				}
+			}
 			if c.Pick("build", 2) == 1 {
 				var built ion.SymbolTable
 				if failPanic(c, drive.Safe(func() { built = b.Build() })) {
@@ -332,6 +345,7 @@ func c09Body(c *mc.Ctx) {
 				if _, ok := c09Compare(c, built, ref, fmt.Sprintf("Build() after Add%q", adds)); !ok {
 					return
 				}
+				snaps = append(snaps, c09Snap{built, ref, fmt.Sprintf("Build() after Add%q", adds)})
 			}
 		}
 		d, ok := c09Compare(c, b, ref, "builder")
@@ -347,7 +361,7 @@ func init() {
 		ID:    "C09",
 		Title: "Symbol tables assign and resolve symbol IDs as the Ion rules prescribe",
 		Rule: "every import list of length <= n over a pool of 5 shared tables (empty, overlapping text, internal duplicates, an empty-string slot, text equal to system symbols), each adjusted to every max_id in 0..size+2, x every local symbol list of length <= 3 over {a,b,'',name,x,q}, built (i) with NewLocalSymbolTable, (ii) by a Reader from an LST in text and binary with each import present in / missing from the catalog (placeholder tables), (iii) with a builder under every Add sequence of length <= k with and without Build after each Add. " +
-			"On each table: MaxID, FindByID and NewSymbolTokenBySID for every id in 0..MaxID+2, FindByName/Find/NewSymbolToken for 9 texts, all compared with the reference slot list (system 1..9, each import exactly max_id slots padded/truncated, locals after; lowest-ID lookup); after each Add every earlier answer is re-asked. " +
+			"On each table: MaxID, FindByID and NewSymbolTokenBySID for every id in 0..MaxID+2, FindByName/Find/NewSymbolToken for 9 texts, all compared with the reference slot list (system 1..9, each import exactly max_id slots padded/truncated, locals after; lowest-ID lookup); after each Add every earlier answer is re-asked, of the builder and of every table built before that Add (a built table is a snapshot). " +
 			"non-trivial = a complete query sweep matched the reference; distinct = distinct (construction way, all answers) digests",
 		Bounds:      map[string]string{"quick": "n=2 imports, k=3 adds", "thorough": "n=3 imports, k=4 adds"},
 		Assumptions: []string{"a slot whose text is the empty string is treated as 'text undefined' (ion-go documents \"\" as its padding value); FindByName(\"\") and the ok flag of FindByID on such slots are not compared"},
